@@ -54,7 +54,8 @@ def canonPayload : Payload → String
 
 def canonPayloadOf (r : Req) : String :=
   match r.cat, r.payload with
-  | .logEv, .events x => s!"L[{natList (sortNat (x.evs.toList.map (·.data)))}]"
+  -- log events shorter than 4 bytes (ids below 1000 here) are skipped by LogEvents.CollectorJSON
+  | .logEv, .events x => s!"L[{natList (sortNat ((x.evs.toList.map (·.data)).filter (· ≥ 1000)))}]"
   | _, p => canonPayload p
 
 def canonReq (r : Req) : String :=
@@ -191,7 +192,7 @@ def reqIds (r : Req) : List (String × Nat) :=
 def txnIds (t : TxnM) : List (String × Nat) :=
   (t.event.toList.map (fun i => ("analytic_event_data", i))) ++ (t.customs.map (fun i => ("custom_event_data", i))) ++
   (t.errEvs.map (fun i => ("error_event_data", i))) ++ (t.spans.map (fun i => ("span_event_data", i))) ++
-  (t.logs.map (fun i => ("log_event_data", i))) ++ (t.errors.map (fun e => ("error_data", e.data))) ++
+  ((t.logs.filter (· ≥ 1000)).map (fun i => ("log_event_data", i))) ++ (t.errors.map (fun e => ("error_data", e.data))) ++
   (t.trace.toList.map (fun x => ("transaction_sample_data", x.2.1)))
 
 def retryableCmd (cmd : String) : Bool :=
@@ -256,7 +257,16 @@ def checkImplReqs (st : ProcEng) (reqs : List ImplReq) : ProcEng × List String 
       let f4 := if ids.any (fun k => st.noRetry.contains k) then ["C02 proc: data was re-sent after a non-retryable failure (status or category)"] else []
       let sends := ids.foldl (fun l k => (k, sendsOf l k + 1) :: l.filter (·.1 != k)) st.sends
       let f5 := if ids.any (fun k => sendsOf sends k > Gen.Limits.FailedEventsAttemptsLimit + 1) then ["C02 proc: a payload was re-sent more often than the attempt limit allows"] else []
-      ({ st with sends := sends }, fails ++ f1 ++ f2 ++ f3 ++ f4 ++ f5)) (st, [])
+      -- C05: an event payload never holds more events than the capacity negotiated for its run (collector limit, daemon
+      -- maximum and, for log events, the agent's limit scaled to the report period: `C05_limits_negotiated`, `C05_log_cap`)
+      let capOf : Option Nat := (getRun st.s q.run).bind (fun r =>
+        if q.cmd == "analytic_event_data" then some r.h.txn.cap else if q.cmd == "custom_event_data" then some r.h.custom.cap
+        else if q.cmd == "error_event_data" then some r.h.errEv.cap else if q.cmd == "span_event_data" then some r.h.span.cap
+        else if q.cmd == "log_event_data" then some r.h.log.cap else none)
+      let f6 := match capOf with
+        | some c => if ids.length ≤ c then [] else [s!"C05 proc: a {q.cmd} payload holds {ids.length} events; the capacity negotiated for its run is {c}"]
+        | none => []
+      ({ st with sends := sends }, fails ++ f1 ++ f2 ++ f3 ++ f4 ++ f5 ++ f6)) (st, [])
 
 /-- ids of a run that left the model's containers without being sent: evicted by capacity or given up -/
 def noteEvictions (st : ProcEng) (run : String) (before : List (String × Nat)) (incoming : List (String × Nat)) : ProcEng :=
